@@ -85,3 +85,26 @@ pub mod ph {
         k.verify_prehashed_strict(h, Some(ctx), &Signature::from_bytes(sig)).is_ok()
     }
 }
+
+// ---- C08 (second sentence): sign, then verify under the same key (msg/ctx for verification passed separately)
+pub mod rt {
+    use crate::{Signer, SigningKey, Verifier};
+    #[inline(never)] pub fn vp_ed_sign_then_verify(seed: &[u8; 32], msg: &[u8], vmsg: &[u8], strict: bool) -> bool {
+        let k = SigningKey::from_bytes(seed);
+        let sig = k.sign(msg);
+        let vk = k.verifying_key();
+        let r = if strict { vk.verify_strict(vmsg, &sig).is_ok() } else { vk.verify(vmsg, &sig).is_ok() };
+        core::mem::forget(k); r
+    }
+    #[cfg(feature = "digest")]
+    #[inline(never)] pub fn vp_ed_sign_then_verify_ph(seed: &[u8; 32], msg: &[u8], ctx: &[u8], vmsg: &[u8], vctx: &[u8], strict: bool) -> bool {
+        use sha2::{Digest, Sha512};
+        let k = SigningKey::from_bytes(seed);
+        let mut h = Sha512::new(); h.update(msg);
+        let sig = match k.sign_prehashed(h, Some(ctx)) { Ok(s) => s, Err(_) => { core::mem::forget(k); return false } };
+        let vk = k.verifying_key();
+        let mut h2 = Sha512::new(); h2.update(vmsg);
+        let r = if strict { vk.verify_prehashed_strict(h2, Some(vctx), &sig).is_ok() } else { vk.verify_prehashed(h2, Some(vctx), &sig).is_ok() };
+        core::mem::forget(k); r
+    }
+}
